@@ -83,6 +83,7 @@ type Ctx struct {
 	Extra       map[string]interface{}
 
 	journal *os.File
+	sigCount map[string]int
 	NoLean  bool
 }
 
@@ -179,7 +180,12 @@ func (c *Ctx) ModelCmp(stream, req, impl string, cmp func(string) string) {
 
 // Violate records a failing input found by the property oracle on the implementation.
 func (c *Ctx) Violate(v Violation) {
-	if len(c.Violations) < 50 {
+	if c.sigCount == nil {
+		c.sigCount = map[string]int{}
+	}
+	c.sigCount[v.Signature]++
+	// keep a few witnesses per signature so that one frequent failure does not hide the others
+	if c.sigCount[v.Signature] <= 3 && len(c.Violations) < 600 {
 		c.Violations = append(c.Violations, v)
 	}
 }
@@ -526,6 +532,7 @@ func (c *Ctx) Finish(rule string, trusted []string, assumptions []string) int {
 		"broken_obligations":   c.BrokenProof,
 		"disagreements":        len(c.Disagreements),
 		"known_findings_hit":   knownHit,
+		"violation_signatures": c.sigCount,
 		"notes":                c.Notes,
 		"traces_validated_against_impl": intExtra(c.Extra["model_cases_compared"]),
 	}
